@@ -139,9 +139,11 @@ def main(argv=None):
                         r["verdict"] = "ERROR"
                         r["message"] = "counterexample does not reproduce on the unpatched code (model error): " + str(rr.get("detail"))
                         exit_code = 3
+                        lines.append(f"HARNESS-ERROR property={pid} obligation={ob.name} {r['message'][:600]} cex={json.dumps(cex)[:600]} [{rpath}]")
                     else:
                         r["verdict"] = "ERROR"
                         exit_code = 3
+                        lines.append(f"HARNESS-ERROR property={pid} obligation={ob.name} replay failed: {str(rr.get('detail'))[:1200]} [{rpath}]")
                 elif v in ("INCONCLUSIVE",):
                     if exit_code == 0:
                         exit_code = 2
